@@ -259,6 +259,10 @@ fn run(op: &Value) -> Value {
                     self.0.lock().unwrap().push(format!("e2({:?},{:?},{:?},{})", p_arg, opt_arg, bar_arg, cookie_token.as_str()));
                     Ok(())
                 }
+                fn e3(&self, body_arg: String) -> Result<String, conjure_error::Error> {
+                    self.0.lock().unwrap().push(format!("e3({:?})", body_arg));
+                    Ok(body_arg)
+                }
             }
             let calls = Arc::new(Mutex::new(vec![]));
             let svc = verif_endpoints::SvcEndpoints::new(H(calls.clone()));
@@ -302,6 +306,93 @@ fn run(op: &Value) -> Value {
                            "param": param, "cause_safe": e.cause_safe(), "cause": e.cause().to_string(),
                            "error_safe_params": e.safe_params().iter().map(|(k, v)| format!("{}={:?}", k, v)).collect::<Vec<_>>(), "safe_params": safe})
                 }
+            }
+        }
+        "loopback" => {
+            // C04: the real #[conjure_client] client wired to the real #[conjure_endpoints] service through a minimal router
+            // (method + path template match, raw path segments into PathParams, headers and body copied)
+            use conjure_http::client::{Client, RequestBody};
+            use conjure_http::server::{ConjureRuntime, Endpoint, PathSegment, ResponseBody, Service};
+            use std::sync::{Arc, Mutex};
+            use verif_endpoints::SvcApi;
+            type Items = std::vec::IntoIter<Result<bytes::Bytes, conjure_error::Error>>;
+            struct H(Arc<Mutex<Vec<Value>>>, String);
+            impl verif_endpoints::Svc for H {
+                fn e1(&self, path_arg: i32, query_arg: String, header_arg: i32, auth_token: BearerToken) -> Result<(), conjure_error::Error> {
+                    self.0.lock().unwrap().push(json!({"endpoint": "e1", "path_arg": path_arg, "query_arg": tohex(query_arg.as_bytes()), "header_arg": header_arg, "token": auth_token.as_str()}));
+                    Ok(())
+                }
+                fn e2(&self, p_arg: String, opt_arg: Option<i32>, bar_arg: Option<String>, cookie_token: BearerToken) -> Result<(), conjure_error::Error> {
+                    self.0.lock().unwrap().push(json!({"endpoint": "e2", "p_arg": tohex(p_arg.as_bytes()), "opt_arg": opt_arg, "bar_arg": bar_arg.map(|b| tohex(b.as_bytes())), "token": cookie_token.as_str()}));
+                    Ok(())
+                }
+                fn e3(&self, body_arg: String) -> Result<String, conjure_error::Error> {
+                    self.0.lock().unwrap().push(json!({"endpoint": "e3", "body_arg": tohex(body_arg.as_bytes())}));
+                    Ok(self.1.clone())
+                }
+            }
+            struct Loop(Vec<Box<dyn Endpoint<Items, Vec<u8>> + Sync + Send>>);
+            impl Client for Loop {
+                type BodyWriter = Vec<u8>;
+                type ResponseBody = Items;
+                fn send(&self, req: http::Request<RequestBody<'_, Vec<u8>>>) -> Result<http::Response<Items>, conjure_error::Error> {
+                    let (parts, body) = req.into_parts();
+                    let body = match body {
+                        RequestBody::Empty => vec![],
+                        RequestBody::Fixed(b) => vec![Ok(b)],
+                        RequestBody::Streaming(mut w) => { let mut buf = vec![]; w.write_body(&mut buf)?; vec![Ok(bytes::Bytes::from(buf))] }
+                    };
+                    let segs: Vec<&str> = parts.uri.path().split('/').skip(1).collect();
+                    for e in &self.0 {
+                        if e.method() != parts.method || e.path().len() != segs.len() { continue; }
+                        let mut pp = conjure_http::PathParams::new();
+                        let mut ok = true;
+                        for (t, s) in e.path().iter().zip(&segs) {
+                            match t {
+                                PathSegment::Literal(l) => ok &= l == s,
+                                PathSegment::Parameter { name, .. } => pp.insert(&**name, *s),
+                            }
+                        }
+                        if !ok { continue; }
+                        let mut sreq = http::Request::new(body.into_iter());
+                        *sreq.method_mut() = parts.method.clone();
+                        *sreq.uri_mut() = parts.uri.clone();
+                        *sreq.headers_mut() = parts.headers.clone();
+                        sreq.extensions_mut().insert(pp);
+                        let mut ext = http::Extensions::new();
+                        let resp = e.handle(sreq, &mut ext)?;
+                        let (rparts, rbody) = resp.into_parts();
+                        let items = match rbody {
+                            ResponseBody::Empty => vec![],
+                            ResponseBody::Fixed(b) => vec![Ok(b)],
+                            ResponseBody::Streaming(w) => { let mut buf = vec![]; w.write_body(&mut buf)?; vec![Ok(bytes::Bytes::from(buf))] }
+                        };
+                        return Ok(http::Response::from_parts(rparts, items.into_iter()));
+                    }
+                    Err(conjure_error::Error::internal_safe("no endpoint matches the request"))
+                }
+            }
+            let calls = Arc::new(Mutex::new(vec![]));
+            let ret = String::from_utf8(hex(op["ret"].as_str().unwrap_or(""))).unwrap_or_default();
+            let svc = verif_endpoints::SvcEndpoints::new(H(calls.clone(), ret));
+            let rt = Arc::new(ConjureRuntime::new());
+            let client = <verif_endpoints::SvcApiClient<Loop> as conjure_http::client::Service<Loop>>::new(Loop(Service::endpoints(&svc, &rt)));
+            let s = |k: &str| String::from_utf8(hex(op[k].as_str().unwrap_or(""))).unwrap_or_default();
+            let tok = |k: &str| BearerToken::new(op[k].as_str().unwrap_or("t")).unwrap();
+            let i = |k: &str| op[k].as_i64().unwrap_or(0) as i32;
+            let r = match op["endpoint"].as_str().unwrap() {
+                "e1" => client.e1(i("path_arg"), &s("query_arg"), i("header_arg"), &tok("token")).map(|_| Value::Null),
+                "e2" => {
+                    let bar = if op["bar_arg"].is_null() { None } else { Some(s("bar_arg")) };
+                    client.e2(&s("p_arg"), op["opt_arg"].as_i64().map(|v| v as i32), bar.as_deref(), &tok("token")).map(|_| Value::Null)
+                }
+                "e3" => client.e3(&s("body_arg")).map(|v| Value::String(tohex(v.as_bytes()))),
+                _ => return json!({"error": "endpoint"}),
+            };
+            let c = calls.lock().unwrap().clone();
+            match r {
+                Ok(v) => json!({"ok": true, "returned": v, "calls": c}),
+                Err(e) => json!({"ok": false, "calls": c, "cause": e.cause().to_string()}),
             }
         }
         "unknown_fields" => {
